@@ -64,6 +64,30 @@ M = {
  "C15-m2": ("parse() trims whitespace before scanning", "leading spaces before an unknown id"),
  "C15-w2m1": ("cached 'unknown license' error keeps the offset of the first sighting", "the same unknown id reported twice at different offsets"),
  "C15-w2m2": ("unknown ids longer than 64 bytes are abbreviated with '...' in the message", "an unknown id of >= 65 bytes"),
+ "C01-w3m1": ("isCompatible resumes the allowed-list scan at the entry that matched the previous term (merge-join 'optimisation')", "a term matched through the range table by an entry sorting before the entry that matched the preceding term"),
+ "C01-w3m2": ("the -or-later rewrite locates the id with strings.Cut (first occurrence of the text) instead of by offset", "the text X-or-later occurring earlier in the expression inside a LicenseRef / DocumentRef name"),
+ "C02-w3m1": ("getLicenseRange skips groups whose first id does not share the looked-up id's prefix before the last '-'", "a family whose members do not share that prefix (one of the 40 families)"),
+ "C02-w3m2": ("parseLicense ignores an explicit '+' after an id ending in -only", "X-only+ against a later version of X"),
+ "C03-w3m1": ("inLicenseList compares the folded first byte before EqualFold and indexes id[0]", "an id token '-only' / '-or-later' whose remainder after stripping the suffix is empty"),
+ "C03-w3m2": ("fallback version ordering for families outside the table indexes the second id's version parts by the first's length", "two unlisted-family ids sharing a stem with dotted versions of different length, '+' on one"),
+ "C04-w3m1": ("the -or-later rewrite replaces the first occurrence of the id text in the scanned prefix", "the same X-or-later text earlier in the expression inside a reference name"),
+ "C04-w3m2": ("parser tracks open parentheses in a uint8 and diagnoses trailing tokens at depth 0", "256 (mod 256) open parentheses around a surplus token"),
+ "C05-w3m1": ("the -or-later rewrite splices by strings.Replace instead of by position", "a reference name repeating the later id's text"),
+ "C05-w3m2": ("parseOperator compares the token value in place and drops the role test", "a LicenseRef / DocumentRef whose free-form name is AND, OR or WITH"),
+ "C06-w3m1": ("lower-case operators upper-cased up front by a regexp whose id-character class forgot '.'", "a reference name with '.or.' / '.and.' / '.with.' inside"),
+ "C06-w3m2": ("nesting-depth guard placed on parseExpression, which also recurses once per OR operand", "a flat OR chain of more than 10000 operands"),
+ "C07-w3m1": ("per-call memo 'is this license covered' keyed by the bare id without '+' and without WITH", "the same id twice in one expression with different decoration and different outcomes"),
+ "C07-w3m2": ("allowed entries de-duplicated before parsing on the lower-cased trimmed raw string", "two LicenseRef entries differing only in letter case"),
+ "C08-w3m1": ("the X+ branch of the scanner builds the token from the typed spelling, not the listed one", "a GNU id typed in another letter case followed by '+'"),
+ "C08-w3m2": ("isCompatible resumes the allowed-list scan where the previous license matched", "X and X-only both in one AND group, one WITH an exception, the list covering them by two entries in the other spelling"),
+ "C09-w3m1": ("a '+' directly after an id typed with the suffix -only (exact case) is swallowed by the scanner", "X-only+ vs x-ONLY+ against a later version"),
+ "C09-w3m2": ("per-expression memo of resolved spellings in the scanner skips the side effects of normalizeLicense for repeats", "the same X-or-later spelling twice in one expression (byte-identical) vs once re-cased"),
+ "C10-w3m1": ("isCompatible resumes the allowed-list scan where the previous license matched", "grouping / spelling that changes the sort order of an AND group relative to the list"),
+ "C10-w3m2": ("the -or-later rewrite uses strings.Replace on the scanned prefix", "the id text earlier in the prefix, e.g. in parentheses or a reference"),
+ "C11-w3m1": ("parseLicense drops an explicit '+' when a WITH exception follows", "non-GNU X+ WITH e against a later version WITH e"),
+ "C11-w3m2": ("sortAndDedup compares neighbours field-wise without hasPlus; in-place compaction loses the X+ entry", "allowed list holding both X and X+ (non-GNU), expression needing the '+' entry"),
+ "C15-w3m1": ("exception tokens accepted only when the lexeme equals the exception id; fall-through reports with a stale offset", "an exception id carrying -only / -or-later after WITH behind an earlier rewrite"),
+ "C15-w3m2": ("-or-later rewrite applied with ReplaceAll to the text still ahead, offset bookkeeping unchanged", "the same non-listed X-or-later twice before an unknown id"),
 }
 
 def status(r):
